@@ -14,6 +14,11 @@ import (
 
 // modifiedInLoop computes the set of component keys written in a loop body; all=true if unknown effects.
 func (fr *frame) modifiedInLoop(h *ssa.BasicBlock) (keys map[string]bool, all bool, localAllocs map[*ssa.Alloc]bool) {
+	return fr.effectsOf(fr.loopBlocks[h])
+}
+
+// effectsOf: components written by the given blocks.
+func (fr *frame) effectsOf(blocks map[*ssa.BasicBlock]bool) (keys map[string]bool, all bool, localAllocs map[*ssa.Alloc]bool) {
 	fc := fr.fc
 	keys = map[string]bool{}
 	localAllocs = map[*ssa.Alloc]bool{}
@@ -69,7 +74,7 @@ func (fr *frame) modifiedInLoop(h *ssa.BasicBlock) (keys map[string]bool, all bo
 		}
 		keys[fc.cellComp(pt.Elem())] = true
 	}
-	for b := range fr.loopBlocks[h] {
+	for b := range blocks {
 		for _, in := range b.Instrs {
 			switch in := in.(type) {
 			case *ssa.Store:
@@ -117,7 +122,7 @@ func (fr *frame) modifiedInLoop(h *ssa.BasicBlock) (keys map[string]bool, all bo
 						localAllocs[al] = true
 					}
 				}
-				if _, isDefer := in.(*ssa.Defer); isDefer {
+				if _, isDefer := in.(*ssa.Defer); isDefer && !fr.effectsOnly {
 					fc.errf("%s: defer inside a loop is outside the supported subset", fr.fn.Name())
 				}
 			case *ssa.Select, *ssa.Send:
@@ -211,24 +216,18 @@ func (fr *frame) callEffects(cc *ssa.CallCommon) (keys map[string]bool, all bool
 	case callInline:
 		// effects of the inlined body
 		sub := newFrame(fc, callee, "")
+		sub.effectsOnly = true
+		blocks := map[*ssa.BasicBlock]bool{}
 		for _, b := range callee.Blocks {
-			for _, in := range b.Instrs {
-				switch in := in.(type) {
-				case *ssa.Store, *ssa.MapUpdate:
-					_ = in
-					return keys, true
-				case ssa.CallInstruction:
-					ks, a := sub.callEffects(in.Common())
-					if a {
-						return keys, true
-					}
-					for k := range ks {
-						keys[k] = true
-					}
-				}
+			if b != callee.Recover {
+				blocks[b] = true
 			}
 		}
-		return keys, false
+		fc.depth++
+		ks, a, _ := sub.effectsOf(blocks)
+		fc.depth--
+		delete(ks, "TOP")
+		return ks, a
 	}
 	return keys, true
 }
@@ -709,6 +708,9 @@ func (fr *frame) loadedAssume(n string, T types.Type, st *State) {
 	switch T.Underlying().(type) {
 	case *types.Pointer, *types.Map:
 		fc.fact("", "(and (>= %s 0) (< %s %s))", n, n, st.comp["TOP"])
+	case *types.Interface:
+		fc.P.needTagof()
+		fc.fact("", "(< (ptrin %s) %s)", n, st.comp["TOP"])
 	}
 }
 
